@@ -24,9 +24,18 @@ pub fn run(scn: &str, pb: Option<u64>, res: &mut PartResult) {
     run_inner(scn, pb, 1e9, res)
 }
 
+/// The second loom harness (`/verif/loomb`: bucket.rs with crossbeam-epoch in its loom mode).
+pub fn run_bucket_with_budget(scn: &str, pb: Option<u64>, budget_s: f64, res: &mut PartResult) {
+    run_exe("VERIF_LOOMB", "/verif/target/loomb/release/loomb", scn, pb, budget_s, res)
+}
+
 fn run_inner(scn: &str, pb: Option<u64>, budget_s: f64, res: &mut PartResult) {
+    run_exe("VERIF_LOOMH", "/verif/target/loom/release/loomh", scn, pb, budget_s, res)
+}
+
+fn run_exe(var: &str, default: &str, scn: &str, pb: Option<u64>, budget_s: f64, res: &mut PartResult) {
     res.engine = "E2 loom 0.7.2 on the path-included repository source".into();
-    let exe = std::env::var("VERIF_LOOMH").unwrap_or_else(|_| "/verif/target/loom/release/loomh".into());
+    let exe = std::env::var(var).unwrap_or_else(|_| default.into());
     let pbs = pb.map(|p| p.to_string()).unwrap_or_else(|| "none".into());
     let mut child = match Command::new(&exe).arg(scn).arg(&pbs).env("LOOM_MAX_BRANCHES", "100000").stdout(std::process::Stdio::piped()).stderr(std::process::Stdio::piped()).spawn() {
         Ok(c) => c,
